@@ -379,12 +379,14 @@ class IterEngine(Engine):
                 drained = all(p <= DRAIN_LIMIT for p in pending.values())
                 pending = {s: max(0, p - DRAIN_LIMIT) for s, p in pending.items()}
                 if cap > 0:
-                    if sum(e["c"] for e in ents.values()) > cap:
-                        for e in ents.values():
-                            e["maybe"] = True
                     settled = drained
                     if not drained:
                         acct_ok = False
+                    # evictions are possible when over capacity - or whenever the accounting may have
+                    # drifted (partial drain): then current_cost is not the resident cost any more
+                    if not acct_ok or sum(e["c"] for e in ents.values()) > cap:
+                        for e in ents.values():
+                            e["maybe"] = True
             elif t == "C":
                 m = re.match(r"c (\d+)$", o)
                 if not m:
